@@ -596,7 +596,13 @@ func HashMapOfValueGet(vm *Thread, hashMap *HashMapOfValue, key value.Value) (va
 		return value.Undefined, value.Undefined
 	}
 
-	return hashMap.Table[index].Value(), value.Undefined
+	pair := hashMap.Table[index]
+	if pair.Key().IsUndefined() {
+		// the key is absent: index is a free (empty or deleted) slot
+		return value.Undefined, value.Undefined
+	}
+
+	return pair.Value(), value.Undefined
 }
 
 // Check if the given pair is present in the map
